@@ -533,7 +533,7 @@ func runC10(e *Engine, g G, o RunOpt) RunInfo {
 					if strings.Join(got, "\x00") != strings.Join(want, "\x00") {
 						e.Violate("C10", "held-stanzas-changed-by-resumption", "<resumed h='%d'/> repeats what was acknowledged before the loss: held before %s, after the resumption %s", h, shortStz(want), shortStz(got))
 					}
-					e.Probe("c10.resumed_at_end", "c10.honest_server_after_resumption")
+					e.Probe("c10.resumed_at_end")
 					// From here on the server counts honestly: it had handled h stanzas when the connection was
 					// lost, and it handles what it receives on the new connection. Every answer to an <r/> (and
 					// one unsolicited acknowledgement to begin with) carries that count. What the server has
